@@ -344,6 +344,16 @@ public:
         m_currentLogDate = QDate::currentDate();
     }
 
+    void afterSend()
+    {
+        // The day of the log file's content is taken from its modification time at the next
+        // start. A record left in the write buffer would be stamped with the day it happens to be
+        // flushed on (at close, possibly days later), so with daily rotation it is written out now.
+        if (m_rotationDaily) {
+            q_ptr->file()->flush();
+        }
+    }
+
     RotatingFileSink *q_ptr;
 
     int m_maxFileSize;
@@ -375,6 +385,7 @@ void RotatingFileSink::send(const LogMessage &lmsg)
     d->init();
     d->rotateIfNeeded(lmsg);
     FileSink::send(lmsg);
+    d->afterSend();
 }
 
 } // namespace QtLogger
